@@ -125,6 +125,11 @@ pub struct C13Scenario {
     #[serde(default)]
     pub layout: Layout,
     pub annotate: bool,
+    /// all steps of the history run in ONE process (and on one thread) of the code under
+    /// test — as in a watch mode — instead of one process per step; a simulated crash ends
+    /// that process and the next step starts a new one
+    #[serde(default)]
+    pub session: bool,
     pub history: Vec<Op>,
     #[serde(default)]
     pub relations: Vec<Rel>,
@@ -252,6 +257,8 @@ fn norm(b: &[u8]) -> Vec<u8> {
 
 #[derive(Clone, Debug, Default)]
 pub struct Stats {
+    pub sessions_started: u64,
+    pub steps_in_running_session: u64,
     pub cli_bad_stderr: u64,
     pub linked_sources: u64,
     pub steps: u64,
@@ -316,6 +323,8 @@ impl Stats {
         self.cli_runs += o.cli_runs;
         self.linked_sources += o.linked_sources;
         self.cli_bad_stderr += o.cli_bad_stderr;
+        self.sessions_started += o.sessions_started;
+        self.steps_in_running_session += o.steps_in_running_session;
         self.cli_skipped += o.cli_skipped;
         self.reference_runs += o.reference_runs;
         self.reference_panics += o.reference_panics;
@@ -376,6 +385,8 @@ pub struct HistExec {
     pub refs: RefCache,
     /// reference outputs per Project op index: file text digest -> output bytes (when Ok)
     pub version_refs: BTreeMap<usize, JobResult>,
+    pub session_mode: bool,
+    pub session: Option<crate::pool::Session>,
 }
 
 fn src_dir_name(layout: &Layout) -> String {
@@ -467,10 +478,15 @@ impl HistExec {
             last_outcome: String::new(),
             refs: RefCache::new(),
             version_refs: BTreeMap::new(),
+            session_mode: sc_header.session,
+            session: None,
         }
     }
 
-    pub fn cleanup(&self) {
+    pub fn cleanup(&mut self) {
+        if let Some(s) = self.session.take() {
+            let _ = s.close();
+        }
         let _ = std::fs::remove_dir_all(&self.root);
         let _ = std::fs::remove_dir_all(format!("{}-cli", self.root));
     }
@@ -620,8 +636,32 @@ impl HistExec {
         }
     }
 
-    fn run_step(&self, spec: &StepSpec) -> StepResult {
+    fn run_step(&mut self, spec: &StepSpec) -> StepResult {
         let input = serde_json::to_string(spec).unwrap();
+        if self.session_mode {
+            if self.session.is_none() {
+                self.session = crate::pool::Session::spawn("exec-session", &BTreeMap::new(), &format!("{}/cwd", spec.root));
+                self.stats.sessions_started += 1;
+            }
+            let reply = self.session.as_mut().and_then(|s| s.request(&input));
+            match reply.as_deref().map(serde_json::from_str::<StepResult>) {
+                Some(Ok(r)) => {
+                    if r.outcome == "crash" {
+                        // the process is gone with the crash
+                        if let Some(s) = self.session.take() {
+                            let _ = s.close();
+                        }
+                    } else {
+                        self.stats.steps_in_running_session += 1;
+                    }
+                    return r;
+                }
+                _ => {
+                    let how = self.session.take().map(|s| s.close());
+                    return StepResult { outcome: "abort".into(), panic_msg: format!("session executor ended: {how:?}"), ..Default::default() };
+                }
+            }
+        }
         let out = run_exec("exec-step", &input, &BTreeMap::new(), &format!("{}/cwd", spec.root), &[]);
         // a crash record (exit 137) and a normal result are both one JSON line on stdout
         if let Some(line) = out.stdout.lines().last() {
@@ -654,6 +694,12 @@ impl HistExec {
         if !self.has_project {
             // no source directory exists yet: the only acceptable outcome is an error
             r = JobResult { verdict: "err".into(), ..Default::default() };
+        }
+        if let Some(f) = &self.layout.src_file {
+            if !self.version.files.iter().any(|x| &x.path == f) {
+                // the single input file does not exist (in this version): an error, too
+                r = JobResult { verdict: "err".into(), ..Default::default() };
+            }
         }
         let fault_configured = crash_at.is_some() || disk_budget.is_some() || plan.iter().any(|p| !is_benign(p));
         // An obstacle somebody put into the output directory — a directory where a mirrored
